@@ -156,6 +156,25 @@ def w_explicit(ctx, rng, idx):
         ctx.sample({'workload': 'explicit', 'dims': dims, 'markov_generator': markov, 'complex': cplx, 'step_sizes': hs, 'normalize': nz})
 
 
+def w_explicit_long(ctx, rng, idx):
+    """1200-1800 normalised explicit Euler steps with an amplification (or damping) of a factor 2-4 per step: the un-normalised recurrence would
+    leave the floating-point range after a few hundred steps, the normalised one - what the scheme with `normalize` on is - stays at norm one"""
+    dims = [[2, 2], [3, 2], [2, 2, 2]][int(rng.integers(0, 3))]
+    cplx = bool(rng.integers(0, 2))
+    with probe.oracle():
+        A = general_operator(rng, dims, cplx)
+        nA = float(np.linalg.norm(mat(dense(A)), 2))
+        grow = rng.random() < 0.6
+        A = ((float(rng.uniform(1.5, 3.0)) if grow else float(rng.uniform(0.5, 0.8))) / max(nA, 1e-12)) * A
+        if not grow:  # strong damping: I + hA with h A ~ -(0.5..0.8) on a positive semi-definite part is not guaranteed; use the plain scaling, sign by chance
+            pass
+        x0 = max_state(rng, dims, cplx)
+    N = int(rng.integers(1200, 1801))
+    nz = 2
+    ctx.describe({'op': 'explicit_euler (long normalised run)', 'dims': dims, 'complex': cplx, 'steps': N, 'normalize': nz, 'amplification_per_step': 'grow' if grow else 'shrink'})
+    call('ode.explicit_euler', ode.explicit_euler, A, x0, [1.0] * N, prop=P, threshold=0.0, max_rank=10 ** 6, normalize=nz, progress=False, tags=['long_normalised_run'])
+
+
 def w_implicit(ctx, rng, idx):
     dims, A, x0, nz, markov, cplx = setting(rng)
     hs = steps(rng)
@@ -299,6 +318,7 @@ def w_adaptive(ctx, rng, idx):
 
 WORKLOADS = [
     Workload('explicit', w_explicit, 120, 2500),
+    Workload('explicit_long', w_explicit_long, 2, 16),
     Workload('implicit', w_implicit, 160, 3000),
     Workload('hod', w_hod, 120, 2500),
     Workload('errors', w_errors, 60, 1200),
